@@ -3,14 +3,17 @@ package checks
 import (
 	"bytes"
 	"context"
+	"encoding/json"
 	"fmt"
 	"git.defalsify.org/vise.git/state"
 	"io"
 	"os"
+	"os/exec"
 	"path/filepath"
 	"regexp"
 	"runtime"
 	"sort"
+	"strconv"
 	"strings"
 	"sync"
 	"sync/atomic"
@@ -217,11 +220,110 @@ func C19() *vk.Check {
 
 var c19Once sync.Once
 
+type c19round struct {
+	r        *vk.RNG
+	a, a2    *app.App
+	drv      string
+	shared   *c19shared
+	sessions []*c19session
+}
+
+// c19Build makes round i from the seed alone (the solo reference process rebuilds the same round): applications,
+// sessions, histories, and the process-wide registrations the round's sessions use.
+func c19Build(seed uint64, i int) *c19round {
+	drivers := []string{"long", "mem", "fs", "pg"}
+	key := fmt.Sprintf("round/%d", i)
+	r := vk.CaseRNG(seed, key)
+	p := c07Profile(r)
+	p.Catch = true
+	a := app.Generate(r, p)
+	drv := drivers[i%len(drivers)]
+	k := r.Range(2, 16)
+	shared := &c19shared{srv: pgfake.NewServer()}
+	shared.dir, _ = os.MkdirTemp("", "vfs19-")
+	sessions := make([]*c19session, k)
+	for j := range sessions {
+		sid := fmt.Sprintf("ses%d", j)
+		if (i/4)%2 == 1 {
+			// namespaced ids that differ only in their last characters (what a gateway hands out)
+			sid = fmt.Sprintf("ussd-gateway-eu-west-1-session-%04d", j)
+		}
+		cfg := genConfig(r, a, sid)
+		if a.Trans["nor"] != nil && r.Chance(1, 2) {
+			// sessions of one round are configured with different languages: the same symbols resolve to templates and
+			// labels of different lengths for sessions served side by side
+			cfg.Language = vk.Pick(r, []string{"nor", "swa", "fra", "eng"})
+		}
+		// a third of the rounds run with the engine's debug features on (state flag names from the process-wide
+		// state.FlagDebugger registry in every state string, engine.SimpleDebug after every execution)
+		cfg.Debug = i%3 == 2
+		cfg.StoreSession = (i/8)%2 == 1 // the session is also selected on the store handle (db.SetSession)
+		h := a.History(r, r.Range(3, 14))
+		for x := range h {
+			if x > 0 && r.Chance(1, 12) {
+				h[x] = "#12" // goes through the registered validator
+			}
+		}
+		sessions[j] = &c19session{a: a, id: j, cfg: cfg, hist: h, drv: drv}
+	}
+	// every fourth round serves two different applications at the same time: process-wide state that one
+	// application's session leaves behind shows in the other's pages even where no access races
+	var a2 *app.App
+	if i%4 == 3 {
+		r2 := vk.CaseRNG(seed, key+"/app2")
+		a2 = app.Generate(r2, p)
+		for j := 1; j < len(sessions); j += 2 {
+			s := sessions[j]
+			s.a = a2
+			s.cfg = genConfig(r2, a2, s.cfg.SessionId)
+			s.cfg.Debug = i%3 == 2
+			s.hist = a2.History(r2, r2.Range(3, 14))
+		}
+	}
+	// a further input format is registered before the round, while nothing is being served (documented usage:
+	// engine.AddValidInput may be called more than once); the sessions of the round use it right away
+	custom := fmt.Sprintf("#r%d", i)
+	vm.RegisterInputValidator(1000+i, "^"+custom+"x[0-9]+$")
+	for _, s := range sessions {
+		for x := range s.hist {
+			if x > 0 && r.Chance(1, 5) {
+				s.hist[x] = custom + "x7"
+			}
+		}
+	}
+	if i%3 == 2 {
+		// flag names are registered before the sessions start, as the examples do
+		for f := uint32(8); f < 8+a.FlagCount; f += 2 { // every other flag stays unregistered
+			state.FlagDebugger.Register(f, fmt.Sprintf("USERFLAG%d_%d", f, i))
+		}
+	}
+	return &c19round{r: r, a: a, a2: a2, drv: drv, shared: shared, sessions: sessions}
+}
+
+// C19Solo is the fresh-process reference: it rebuilds round i and serves session j alone.
+func C19Solo(args []string) {
+	logging.LogWriter = io.Discard
+	vm.RegisterInputValidator(0, "^#[0-9]+$")
+	if len(args) != 3 {
+		os.Exit(2)
+	}
+	seed, _ := strconv.ParseUint(args[0], 10, 64)
+	i, _ := strconv.Atoi(args[1])
+	j, _ := strconv.Atoi(args[2])
+	rd := c19Build(seed, i)
+	if j < 0 || j >= len(rd.sessions) {
+		os.Exit(2)
+	}
+	s := rd.sessions[j]
+	tr := c19Serve(s.a, s, rd.drv, rd.shared, rd.r.Fork(), false)
+	os.RemoveAll(rd.shared.dir)
+	json.NewEncoder(os.Stdout).Encode(tr)
+}
+
 func runC19(c *vk.Ctx) {
 	logging.LogWriter = io.Discard
 	c19Once.Do(func() { vm.RegisterInputValidator(0, "^#[0-9]+$") })
 	rounds := c.N(48, 1500)
-	drivers := []string{"long", "mem", "fs", "pg"}
 	for i := 0; i < rounds; i++ {
 		if !c.Mine(i) {
 			continue
@@ -230,66 +332,13 @@ func runC19(c *vk.Ctx) {
 		if !c.Want(key) {
 			continue
 		}
-		r := c.RNG(key)
-		p := c07Profile(r)
-		p.Catch = true
-		a := app.Generate(r, p)
-		drv := drivers[i%len(drivers)]
-		k := r.Range(2, 16)
-		shared := &c19shared{srv: pgfake.NewServer()}
-		shared.dir, _ = os.MkdirTemp("", "vfs19-")
-		sessions := make([]*c19session, k)
-		for j := range sessions {
-			sid := fmt.Sprintf("ses%d", j)
-			if (i/4)%2 == 1 {
-				// namespaced ids that differ only in their last characters (what a gateway hands out)
-				sid = fmt.Sprintf("ussd-gateway-eu-west-1-session-%04d", j)
-			}
-			cfg := genConfig(r, a, sid)
-			// a third of the rounds run with the engine's debug features on (state flag names from the process-wide
-			// state.FlagDebugger registry in every state string, engine.SimpleDebug after every execution)
-			cfg.Debug = i%3 == 2
-			cfg.StoreSession = (i/8)%2 == 1 // the session is also selected on the store handle (db.SetSession)
-			h := a.History(r, r.Range(3, 14))
-			for x := range h {
-				if x > 0 && r.Chance(1, 12) {
-					h[x] = "#12" // goes through the registered validator
-				}
-			}
-			sessions[j] = &c19session{a: a, id: j, cfg: cfg, hist: h, drv: drv}
-		}
-		// every fourth round serves two different applications at the same time: process-wide state that one
-		// application's session leaves behind shows in the other's pages even where no access races
-		var a2 *app.App
-		if i%4 == 3 {
-			r2 := c.RNG(key + "/app2")
-			a2 = app.Generate(r2, p)
-			for j := 1; j < len(sessions); j += 2 {
-				s := sessions[j]
-				s.a = a2
-				s.cfg = genConfig(r2, a2, s.cfg.SessionId)
-				s.cfg.Debug = i%3 == 2
-				s.hist = a2.History(r2, r2.Range(3, 14))
-			}
+		rd := c19Build(c.Seed, i)
+		r, a, a2, drv, k, shared, sessions := rd.r, rd.a, rd.a2, rd.drv, len(rd.sessions), rd.shared, rd.sessions
+		if a2 != nil {
 			c.Count("rounds_with_two_applications", 1)
-		}
-		// a further input format is registered before the round, while nothing is being served (documented usage:
-		// engine.AddValidInput may be called more than once); the sessions of the round use it right away
-		custom := fmt.Sprintf("#r%d", i)
-		vm.RegisterInputValidator(1000+i, "^"+custom+"x[0-9]+$")
-		for _, s := range sessions {
-			for x := range s.hist {
-				if x > 0 && r.Chance(1, 5) {
-					s.hist[x] = custom + "x7"
-				}
-			}
 		}
 		c.Count("input_validators_registered", 1)
 		if i%3 == 2 {
-			// flag names are registered before the sessions start, as the examples do
-			for f := uint32(8); f < 8+a.FlagCount; f += 2 { // every other flag stays unregistered
-				state.FlagDebugger.Register(f, fmt.Sprintf("USERFLAG%d_%d", f, i))
-			}
 			c.Count("rounds_with_debug_features", 1)
 		}
 		c.Begin(key)
@@ -315,6 +364,62 @@ func runC19(c *vk.Ctx) {
 		wg.Wait()
 		switches := atomic.LoadInt64(&c19Switches) - before
 		os.RemoveAll(shared.dir)
+		// reference from a fresh process: one or two sessions of the round are served alone by a new process that
+		// rebuilds the round from the seed. Whatever the library keeps process-wide (memoised measurements, registries,
+		// pools) has seen nothing but that session there, while the in-process reference below inherits what the
+		// concurrent phase left behind.
+		if exe, err := os.Executable(); err == nil {
+			// up to eight sessions: first those that were refused a page (a limit that a measurement decides) or were
+			// shown browse entries (paged content), then one by position (and one of the second application)
+			picked := map[int]bool{}
+			var picks []int
+			pick := func(j int) {
+				if !picked[j] && len(picks) < 8 {
+					picked[j] = true
+					picks = append(picks, j)
+				}
+			}
+			for j := range sessions {
+				if strings.Contains(strings.Join(got[j], "\n"), "flush=error") {
+					pick(j)
+				}
+			}
+			for j := range sessions {
+				if t := strings.Join(got[j], "\n"); strings.Contains(t, "\\n11") || strings.Contains(t, "\\n22") {
+					pick(j)
+				}
+			}
+			pick(i % k)
+			if a2 != nil {
+				pick((i + 1) % k)
+			}
+			for _, j := range picks {
+				out, err := exec.Command(exe, "C19SOLO", fmt.Sprint(c.Seed), fmt.Sprint(i), fmt.Sprint(j)).Output()
+				var want []string
+				if err != nil || json.Unmarshal(out, &want) != nil {
+					c.Inconclusive(fmt.Sprintf("fresh-process reference for round %d session %d: %v %s", i, j, err, trunc2(string(out), 200)))
+					continue
+				}
+				c.Count("sessions_compared_with_a_fresh_process", 1)
+				c.Count("requests_compared_with_a_fresh_process", int64(len(want)))
+				if strings.Join(want, "\n") != strings.Join(got[j], "\n") {
+					step := 0
+					for step < len(want) && step < len(got[j]) && want[step] == got[j][step] {
+						step++
+					}
+					w, g := "(none)", "(none)"
+					if step < len(want) {
+						w = want[step]
+					}
+					if step < len(got[j]) {
+						g = got[j][step]
+					}
+					c.Violate("transcript-differs-from-fresh-process:"+drv, fmt.Sprintf("round %d session %d step %d: alone in a fresh process %s | concurrent with %d others %s", i, j, step, w, k-1, g), key,
+						map[string]interface{}{"driver": drv, "sessions": k, "app": sessions[j].a.Describe(), "history": sessions[j].hist, "config": sessions[j].cfg})
+					break
+				}
+			}
+		}
 		// sequential reference
 		shared2 := &c19shared{srv: pgfake.NewServer()}
 		shared2.dir, _ = os.MkdirTemp("", "vfs19-")
